@@ -111,7 +111,8 @@ fn run_impl(env: &mut Env, case: &TextCase) -> Outcome {
         Ok(Ok(d)) => d,
     };
     out.status = "SOk";
-    if max_declared_length(&case.chardef) > 64 {
+    // VERIF_C20_PROBE_ALL=1: probe and analyse even with a huge declared length (investigation of the candidate explosion)
+    if max_declared_length(&case.chardef) > 64 && std::env::var("VERIF_C20_PROBE_ALL").is_err() {
         out.probes_skipped = true;
         return out;
     }
@@ -363,7 +364,33 @@ fn dims(rng: &mut Rng) -> (i64, i64) {
     (a, if rng.chance(1, 2) { a } else { *rng.pick(&[1i64, 2, 3, 5, 10]) })
 }
 
+/// bytes that are no UTF-8 text (outside the model, which takes code points): the readers must answer with an error value
+fn emit_raw(sink: &mut Sink, env: &mut Env, chardef: &[u8], unkdef: &[u8], shape: &str) {
+    let bytes = env.dictionary(3, 3);
+    std::fs::write(env.dir.join("text_catdef.def"), chardef).unwrap();
+    std::fs::write(env.dir.join("text_unk.def"), unkdef).unwrap();
+    let cfg_text = format!(
+        "{{\"path\":{},\"characterDefinitionFile\":\"char.def\",\"oovProviderPlugin\":[{{\"class\":\"com.worksap.nlp.sudachi.MeCabOovPlugin\",\"charDef\":\"text_catdef.def\",\"unkDef\":\"text_unk.def\"}}]}}",
+        serde_json::to_string(&env.dir.to_string_lossy()).unwrap()
+    );
+    let cfg = ConfigBuilder::from_bytes(cfg_text.as_bytes()).expect("config json").build();
+    let r = catch(|| JapaneseDictionary::from_cfg_storage(&cfg, SudachiDicData::new(Storage::Owned(bytes))).map(|_| ()));
+    sink.tag(&format!("text:{}", shape));
+    let id = sink.case_rust_only(json!({"kind": "c20-text-raw", "shape": shape, "chardef_bytes": chardef, "unkdef_bytes": unkdef}), true);
+    match r {
+        Err(p) => sink.fail(id, &format!("loading panicked on a definition file that is not UTF-8 text: {}", p), ""),
+        Ok(Ok(())) => sink.fail(id, "a definition file that is not UTF-8 text was accepted", ""),
+        Ok(Err(_)) => {}
+    }
+}
+
 pub fn replay(sink: &mut Sink, env: &mut Env, c: &Value) {
+    if c["kind"] == "c20-text-raw" {
+        let b = |x: &Value| -> Vec<u8> { x.as_array().unwrap().iter().map(|v| v.as_u64().unwrap() as u8).collect() };
+        println!("replaying C20 raw definition files");
+        emit_raw(sink, env, &b(&c["chardef_bytes"]), &b(&c["unkdef_bytes"]), "replay");
+        return;
+    }
     let case = TextCase {
         nl: c["nl"].as_i64().unwrap(),
         nr: c["nr"].as_i64().unwrap(),
@@ -412,6 +439,11 @@ pub fn run(sink: &mut Sink, env: &mut Env, rng: &mut Rng, n: usize) {
     }
     emit(sink, env, &TextCase { nl: 3, nr: 2, allow: false, chardef: base_cd.into(), unkdef: format!("ALPHA,2,1,0,{}\n", pos) }, "directed_non_square", false);
     emit(sink, env, &TextCase { nl: 3, nr: 2, allow: false, chardef: base_cd.into(), unkdef: format!("ALPHA,1,2,0,{}\n", pos) }, "directed_non_square", false);
+    let good_cd = b"DEFAULT 0 1 0\nALPHA 1 1 0\n";
+    let good_ud = format!("ALPHA,1,1,100,{}\n", pos);
+    emit_raw(sink, env, b"DEFAULT 0 1 0\nALPHA \xff 1 0\n", good_ud.as_bytes(), "raw_invalid_utf8_in_category_definitions");
+    emit_raw(sink, env, good_cd, b"ALPHA,1,1,100,\xe5\x90,b,c,d,e,f\n", "raw_invalid_utf8_in_unk_def");
+    emit_raw(sink, env, good_cd, b"\xff\xfeA\x00L\x00", "raw_utf16_unk_def");
     // ---- structured stream: valid texts with exactly one damaged line
     for it in 0..n {
         let (nl, nr) = dims(rng);
